@@ -46,3 +46,93 @@ package cookies
 
 //@ func warnInvalidDomain
 //@ nomod
+
+// ------------------------------------------------------------------ C03 / C05: the CSRF cookie
+//@ func (*csrf).HashOAuthState
+//@ nomod
+//@ prop C03
+//@ ensures[hash-of-state-nonce] result == ite(c.OAuthState == nil, "", hashOf(bytes(c.OAuthState)))
+
+//@ func (*csrf).HashOIDCNonce
+//@ nomod
+//@ prop C05
+//@ ensures[hash-of-oidc-nonce] result == ite(c.OIDCNonce == nil, "", hashOf(bytes(c.OIDCNonce)))
+
+//@ func (*csrf).CheckOAuthState
+//@ nomod
+//@ prop C03
+//@ ensures[state-matches-hash-of-cookie-nonce] result <==> ite(c.OAuthState == nil, "", hashOf(bytes(c.OAuthState))) == hashed
+
+//@ func (*csrf).CheckOIDCNonce
+//@ nomod
+//@ prop C05
+//@ ensures[nonce-matches-hash-of-cookie-nonce] result <==> ite(c.OIDCNonce == nil, "", hashOf(bytes(c.OIDCNonce))) == hashed
+
+//@ func (*csrf).GetCodeVerifier
+//@ nomod
+//@ prop C05
+//@ ensures[the-cookies-verifier] result == c.CodeVerifier
+
+//@ func (*csrf).SetSessionNonce
+//@ prop C05
+//@ modifies SessionState.Nonce
+//@ ensures[session-gets-this-logins-nonce] s.Nonce == c.OIDCNonce
+
+//@ func LoadCSRFCookie
+//@ prop C03 C05
+//@ at call decodeCSRFCookie assert[only-the-cookie-named-for-this-state] cookie.Name == cookieName && arg(decodeCSRFCookie, 0) == cookie
+//@     && arg(decodeCSRFCookie, 1) == opts
+//@ ensures[csrf-only-from-validated-cookie] ret1 == nil ==> called(decodeCSRFCookie) && ret1(decodeCSRFCookie) == nil
+//@     && ret0 == ret0(decodeCSRFCookie) && ret0 != nil
+//@ ensures[error-means-none] ret1 != nil ==> ret0 == nil
+
+//@ func decodeCSRFCookie
+//@ prop C03 C02 C09
+//@ ensures[only-validated] ret1 == nil ==> ret2(Validate) && arg(Validate, 0) == cookie && arg(Validate, 1) == opts.Secret
+//@     && arg(Validate, 2) == opts.Expire
+//@ ensures[non-nil-on-success] ret1 == nil ==> ret0 != nil
+//@ at call decrypt assert[decrypts-the-validated-value] ret2(Validate) && arg(decrypt, 0) == ret0(Validate)
+//@ at call msgpack.Unmarshal assert[decodes-the-decrypted-value] ret1(decrypt) == nil && arg(msgpack.Unmarshal, 0) == ret0(decrypt)
+
+//@ func (*csrf).SetCookie
+//@ prop C03 C05 C18 C02
+//@ at call MakeCookieFromOptions assert[signed-encrypted-value-own-name] ret1(encodeCookie) == nil && arg(MakeCookieFromOptions, 2) == ret0(encodeCookie)
+//@     && arg(MakeCookieFromOptions, 1) == ret(cookieName) && arg(MakeCookieFromOptions, 3) == c.cookieOpts
+//@     && arg(MakeCookieFromOptions, 4) == c.cookieOpts.CSRFExpire
+//@ at call http.SetCookie assert[sets-that-cookie] arg(http.SetCookie, 1) == ret(MakeCookieFromOptions)
+//@ ensures[encode-error-no-cookie] ret1(encodeCookie) != nil ==> ret1 != nil && !called(http.SetCookie)
+
+//@ func (*csrf).ClearCookie
+//@ prop C18 C03
+//@ at call MakeCookieFromOptions assert[deletion-same-name-and-options] arg(MakeCookieFromOptions, 1) == ret(cookieName)
+//@     && arg(MakeCookieFromOptions, 2) == "" && arg(MakeCookieFromOptions, 3) == c.cookieOpts && arg(MakeCookieFromOptions, 4) < 0
+//@ at call http.SetCookie assert[sets-the-deletion] arg(http.SetCookie, 1) == ret(MakeCookieFromOptions)
+
+//@ func (*csrf).encodeCookie
+//@ prop C02 C05
+//@ at call SignedValue assert[signs-ciphertext-not-plaintext] ret1(encrypt) == nil && arg(SignedValue, 2) == ret0(encrypt)
+//@     && arg(SignedValue, 0) == c.cookieOpts.Secret && arg(SignedValue, 1) == ret(cookieName)
+//@ at call encrypt assert[encrypts-the-packed-csrf] ret1(msgpack.Marshal) == nil && arg(encrypt, 0) == ret0(msgpack.Marshal)
+//@     && arg(encrypt, 1) == c.cookieOpts
+//@ ensures[value-is-signed-ciphertext] ret1 == nil ==> called(SignedValue) && ret0 == ret0(SignedValue)
+
+//@ func ExtractStateSubstring
+//@ safety
+//@ nomod
+//@ prop C03 C19
+//@ ensures[first-eight] (len(state) >= 8 ==> result == state[0:8]) && (len(state) < 8 ==> result == "")
+
+//@ func csrfCookieName
+//@ nomod
+//@ prop C03
+//@ ensures[name-format] result == ite(stateSubstring == "", opts.Name + "_csrf", opts.Name + "_" + stateSubstring + "_csrf")
+
+//@ func GenerateCookieName
+//@ nomod
+//@ prop C03
+//@ ensures[name-from-state] result == ite(opts.CSRFPerRequest && len(state) >= 8, opts.Name + "_" + state[0:8] + "_csrf", opts.Name + "_csrf")
+
+//@ func NewCSRF
+//@ prop C05 C03
+//@ ensures[fresh-32-byte-nonces-and-verifier] ret1 == nil ==> ret0 != nil && arg(Nonce#0, 0) == 32 && arg(Nonce#1, 0) == 32
+//@     && ret1(Nonce#0) == nil && ret1(Nonce#1) == nil
